@@ -130,6 +130,8 @@ pub enum AdminOp {
     DeleteRule { lang: String, name: String },
     AddType { name: String },
     AddTypeItem(TypeItemSpec),
+    /// set_date_rule for both languages: the stock spellings, the numeric one as day/month/year or month/day/year
+    SetDateRule { mdy: bool },
 }
 
 impl AdminOp {
@@ -138,6 +140,7 @@ impl AdminOp {
             AdminOp::UpdateCurrency { .. } => "admin.rate_update",
             AdminOp::SetTimezone { .. } => "admin.zone_change",
             AdminOp::SetDecimalSep { .. } | AdminOp::SetThousandSep { .. } | AdminOp::SetNumberCfg { .. } | AdminOp::SetPercentCfg { .. } | AdminOp::SetMoneyCfg { .. } => "admin.format_change",
+            AdminOp::SetDateRule { .. } => "admin.date_rule_change",
             AdminOp::AddRule { .. } => "admin.rule_add",
             AdminOp::DeleteRule { .. } => "admin.rule_delete",
             AdminOp::AddType { .. } | AdminOp::AddTypeItem(_) => "admin.type_add",
